@@ -59,11 +59,18 @@ package netmc
 //@   ensures [closed-reports] called(cl) && (res(cl) ==> err == ErrClosedConn && !called(enc))
 
 //@ func (*minecraftConn).bufferPacket
-//@   props C44
+//@   props C44 C14
+//@   requires canQueue ==> held(c.mu) == none
 //@   at-call Closed as cl: assert ref(arg0) == c
 //@   at-call (Writer).WritePacket as enc: assert called(cl) && !res(cl)
+//@   at-call (Writer).WritePacket as enc2: assert [written-now-only-if-not-queued] arg1 == packet && (canQueue ==> called(q) && res(q, 1) == nil && !res(q, 0))
 //@   at-call Queue as q: assert called(cl) && !res(cl)
+//@   at-call Queue as q2: assert [queue-decision-inside-the-lock] canQueue && held(c.mu) == wlocked && arg0 == c.playPacketQueue && arg1 == packet
 //@   ensures [closed-reports] called(cl) && (res(cl) ==> err == ErrClosedConn && !called(enc) && !called(q))
+//@   ensures [no-queueing-when-releasing] !canQueue ==> !called(q)
+//@   ensures [queued-packets-are-not-written-now] called(q) && res(q, 1) == nil && res(q, 0) ==> err == nil && !called(enc)
+//@   ensures [queue-overflow-is-an-error] called(q) && res(q, 1) != nil ==> err != nil && !called(enc)
+//@   ensures [not-queued-is-written-now] !res(cl) && (!canQueue || (res(q, 1) == nil && !res(q, 0))) ==> called(enc) && err == res(enc, 1)
 
 //@ func (*minecraftConn).bufferPacket$1
 //@   props C44
@@ -107,3 +114,53 @@ package netmc
 //@   props C44
 //@   at-store ok: assert value
 //@   ensures [keeps-looping-after-panic] true
+
+// ---- C14: play packets written during configuration are held back and released in order ------------------------
+// The queue pointer is only touched under c.mu; the queue object has no lock of its own, so every Queue / ReleaseQueue
+// call happens under c.mu too (at-call obligations).
+//@ guarded_by minecraftConn.mu : playPacketQueue
+
+//@ func (*minecraftConn).BufferPacket
+//@   props C14
+//@   at-call bufferPacket as bp: assert arg0 == c && arg1 == packet && arg2
+//@   ensures called(bp) && err == res(bp)
+// Releasing the queue must not queue again.
+//@ func (*minecraftConn).bufferNoQueue
+//@   props C14
+//@   requires held(c.mu) == wlocked
+//@   at-call bufferPacket as bp: assert arg0 == c && arg1 == packet && !arg2
+//@   ensures called(bp) && result == res(bp)
+
+// Activation keeps an existing queue (packets already held are not thrown away by a second "enter config").
+//@ func (*minecraftConn).activatePlayPacketQueue
+//@   props C14
+//@   requires held(c.mu) == wlocked
+//@   at-call NewPlayPacketQueue as mk: assert c.playPacketQueue == nil
+//@   ensures [activated] c.playPacketQueue != nil
+//@   ensures [existing-queue-kept] old(c.playPacketQueue) != nil ==> c.playPacketQueue == old(c.playPacketQueue) && !called(mk)
+//@   ensures [still-locked] held(c.mu) == wlocked
+
+// Entering config activates; any other state releases everything that was held (through bufferNoQueue + Flush) and only
+// then drops the queue - all inside the caller's critical section.
+//@ func (*minecraftConn).ensurePlayPacketQueue
+//@   props C14
+//@   requires held(c.mu) == wlocked
+//@   at-call activatePlayPacketQueue as act: assert newState == states.ConfigState && arg0 == c
+//@   at-call ReleaseQueue as rel: assert [release-the-held-queue] newState != states.ConfigState && arg0 == c.playPacketQueue && c.playPacketQueue != nil && held(c.mu) == wlocked
+//@   at-store playPacketQueue: assert [dropped-only-after-release] value == nil && called(rel)
+//@   ensures [config-activates] newState == states.ConfigState ==> called(act) && !called(rel)
+//@   ensures [leaving-config-releases-then-drops] newState != states.ConfigState ==> c.playPacketQueue == nil && (old(c.playPacketQueue) != nil ==> called(rel))
+//@   ensures [still-locked] held(c.mu) == wlocked
+
+//@ func (*minecraftConn).SetState
+//@   props C14
+//@   at-call ensurePlayPacketQueue as ens: assert [state-change-under-lock] held(c.mu) == wlocked && arg0 == c && arg1 == s.State
+//@   ensures called(ens)
+//@ func (*minecraftConn).SetOutboundState
+//@   props C14
+//@   at-call ensurePlayPacketQueue as ens: assert [state-change-under-lock] held(c.mu) == wlocked && arg0 == c && arg1 == s.State
+//@   ensures called(ens)
+//@ func (*minecraftConn).EnablePlayPacketQueue
+//@   props C14
+//@   at-call activatePlayPacketQueue as act: assert [activation-under-lock] held(c.mu) == wlocked && arg0 == c
+//@   ensures called(act)
